@@ -16,11 +16,11 @@ import (
 )
 
 type SiteStat struct {
-	Execs      int            // times the site was executed
-	MaxLen     int            // largest map seen
-	Deviated   int            // executions in which a non-identity order was applied
-	Orders     map[string]int // distinct orders applied (as permutation strings), capped
-	Uncanon    bool           // key type without canonical order
+	Execs    int            // times the site was executed
+	MaxLen   int            // largest map seen
+	Deviated int            // executions in which a non-identity order was applied
+	Orders   map[string]int // distinct orders applied (as permutation strings), capped
+	Uncanon  bool           // key type without canonical order
 }
 
 var (
@@ -186,7 +186,12 @@ func MapsValues[M ~map[K]V, K comparable, V any](site int, m M) []V {
 // ZeroKV returns zero values of m's key and element types (declares loop variables).
 func ZeroKV[M ~map[K]V, K comparable, V any](m M) (k K, v V) { return }
 
-func TimeNow() time.Time                  { mu.Lock(); defer mu.Unlock(); Clock = Clock.Add(time.Microsecond); return Clock }
+func TimeNow() time.Time {
+	mu.Lock()
+	defer mu.Unlock()
+	Clock = Clock.Add(time.Microsecond)
+	return Clock
+}
 func TimeSince(t time.Time) time.Duration { return TimeNow().Sub(t) }
 func TimeUntil(t time.Time) time.Duration { return t.Sub(TimeNow()) }
 
